@@ -89,6 +89,15 @@ def run(ck):
                         ("zero", bytes(32)), ("one", (1).to_bytes(32, "little"))):
             b = bytearray(pb); b[528 + 32 * f:560 + 32 * f] = enc; add(0, "V3", bytes(b), base["pis"], f"evaluation replaced: field {f} := {nm}")
     add(0, "V3", (bytes([0xC0]) + bytes(47)) * 11 + bytes(480), base["pis"], "all-identity / all-zero proof")
+    # every commitment shifted by a point of the cofactor part of E(Fp) (on the curve, outside G1): the pairing does not
+    # see the shift, only the decoder's subgroup check does
+    from .. import mutate as MU
+    T_ = MU.g1_torsion_point(rng)
+    for f in range(11):
+        P_ = MU.g1_decompress(pb[48 * f:48 * f + 48])
+        if P_ is None: continue
+        enc = MU.g1_compress(MU.g1_add(P_, T_))
+        b = bytearray(pb); b[48 * f:48 * f + 48] = enc; add(0, "V3", bytes(b), base["pis"], f"commitment {f} shifted by a cofactor point (outside G1)")
     # ---- real verifier
     S2 = protocol.Script(); S2.lines = list(S.lines); S2.n = S.n
     cmds = {}
@@ -132,7 +141,7 @@ def run(ck):
                      {"failing_input_found": bool(found), "correspondence": "transcript tie (challenges of Proof::verify vs Protocol/RefVerifier.v)", "challenge": first, "proof_hex": (found or b).hex(), "pis": [hx(p) for p in pis], "circuit": cs[k]},
                      key="transcript:" + first)
     return ck.finish(level="proof",
-        rule="(verifier, proof, public inputs, version) triples: honest proofs of all circuits, stored genuine V2 proofs (corpus) under V2 / V3 / changed PI, honest V3 proofs under V2, under verifiers of other circuits, with changed/truncated/reversed/extended public inputs; single-bit flips of the 1008 proof bytes (quick: 700 sampled, thorough: all 8064); every commitment and evaluation replaced by another valid element (other proof's, neighbour, identity/generator, zero/one); degenerate proof. Real Verifier::verify_with_version vs the extracted Gallina reference verifier (own Keccak/STROBE/Merlin, own BLS12-381 G1, exponent-level pairing check with the scripted SRS secret); derived challenges compared one by one",
+        rule="(verifier, proof, public inputs, version) triples: honest proofs of all circuits, stored genuine V2 proofs (corpus) under V2 / V3 / changed PI, honest V3 proofs under V2, under verifiers of other circuits, with changed/truncated/reversed/extended public inputs; single-bit flips of the 1008 proof bytes (quick: 700 sampled, thorough: all 8064); every commitment shifted by a cofactor point (on the curve, outside G1); every commitment and evaluation replaced by another valid element (other proof's, neighbour, identity/generator, zero/one); degenerate proof. Real Verifier::verify_with_version vs the extracted Gallina reference verifier (own Keccak/STROBE/Merlin, own BLS12-381 G1, exponent-level pairing check with the scripted SRS secret); derived challenges compared one by one",
         assumptions=["Keccak-f modelled as a function (no collision/randomness claim)", "pairing bilinear and non-degenerate: e(A, x h) e(B, h) = 1 <=> x A + B = O", "Protocol/G1.v is an unverified executable reference: a bug there shows as a disagreement on the unchanged tree",
                      "V1 (legacy) equation is not modelled"],
         checker_cmd=proofgate.CHECKER_CMD, trusted_base=proofgate.TRUSTED)
